@@ -32,8 +32,12 @@ def scenarios(rng, tier):
             else: s.frame(0, generic(rng.randrange(256), rng.choice([0, 1, 2]), M, M, own, own, body=bytes(4)), fill)
     return [(s.text(), {})]
 def project(blk, name, meta):
+    # what the property fixes: whether a Discover is answered, by how many frames, and the 46 fixed bytes of the Hello
     if blk.fault: return ('fault',)
-    if blk.op.startswith('frame'): return tuple(blk.acts)
+    if blk.op.startswith('frame'):
+        d = frame_hdr(blk)
+        if d and d['tos'] in (0, 1) and d['opc'] == 0: return tuple(o[:46] for _, _, o in blk.sends())
+        return send_opcodes(blk)
     return ()
 def cfg_own(ib):
     own = OWN0
